@@ -67,9 +67,33 @@ func TestVerifC14(t *testing.T) {
 		if vrt.PathBlobField(j.path) != "" {
 			encodings = append(encodings, true)
 		}
+		// paths through history events: also with a second event whose search attributes hold nothing to rename, before
+		// and after the event on the path
+		type variant struct {
+			asJSON bool
+			pad    string
+		}
+		var variants []variant
 		for _, asJSON := range encodings {
+			variants = append(variants, variant{asJSON, ""})
+		}
+		if vrt.PathEventType(j.path) != "" {
+			variants = append(variants, variant{false, "unmapped-container-before"}, variant{false, "unmapped-container-after"})
+		}
+		for _, vr := range variants {
+			asJSON, pad := vr.asJSON, vr.pad
 			for _, sn := range append(setNames, "absent") {
-				msg := vrt.BuildForPath(j.root.MD, j.path, vrt.BuildOpts{Decorate: vrt.DecorateEvent, BlobJSON: asJSON, SetLeaf: func(m protoreflect.Message, leaf protoreflect.FieldDescriptor) {
+				if pad != "" && sn != "mapped-only" && sn != "mixed" {
+					continue
+				}
+				bo := vrt.BuildOpts{Decorate: vrt.DecorateEvent, BlobJSON: asJSON}
+				switch pad {
+				case "unmapped-container-before":
+					bo.Pad = vrt.PadUnmappedSAEvent
+				case "unmapped-container-after":
+					bo.PadAfter = vrt.PadUnmappedSAEvent
+				}
+				bo.SetLeaf = func(m protoreflect.Message, leaf protoreflect.FieldDescriptor) {
 					switch sn {
 					case "absent":
 						// container left nil; keep the parent non-empty so the path exists up to here
@@ -80,8 +104,9 @@ func TestVerifC14(t *testing.T) {
 					default:
 						vrt.SetSA(m, leaf, vrt.SAKeySets[sn], side)
 					}
-				}})
-				replay := map[string]any{"root": j.root.String(), "path": j.path.String(), "keys": sn, "json_encoded_blob": asJSON}
+				}
+				msg := vrt.BuildForPath(j.root.MD, j.path, bo)
+				replay := map[string]any{"root": j.root.String(), "path": j.path.String(), "keys": sn, "json_encoded_blob": asJSON, "pad": pad}
 				ref := proto.Clone(msg)
 				refMatched, err := vrt.RefTranslateSA(ref, mapping)
 				if err != nil {
@@ -102,6 +127,9 @@ func TestVerifC14(t *testing.T) {
 				sig := vrt.PathSignature(j.path) + "/keys=" + sn
 				if asJSON {
 					sig += "/json-encoded-blob"
+				}
+				if pad != "" {
+					sig += "/" + pad
 				}
 				if err != nil {
 					res.Violate("sa-translator-error/"+sig, fmt.Sprintf("%s path %s keys %s: %v", j.root, j.path, sn, err), replay)
